@@ -1,5 +1,7 @@
 package checks
 
+import "verif/internal/ref/boxwalk"
+
 // The committed don't-care list that property C01 refers to: bits of an accepted byte string that
 // re-encoding is allowed to change. Each row names a box type, an optional version, a payload offset
 // range (offset from the end of the 8/16-byte box header; inclusive) and a bit mask applied to every
@@ -20,9 +22,71 @@ type dcRow struct {
 	Note     string
 }
 
-var c01DontCare = []dcRow{
-	// --- normalisations
-	{"*", -1, -8, -5, 0xff, "size_rederived", "the 32-bit size field is re-derived from the decoded content: a nested fixed-layout box whose declared size disagrees with its content is accepted by the SliceReader child loop (children are advanced by their decoded size) and written with the consistent size"},
+var visualEntries = []string{"avc1", "avc3", "hvc1", "hev1", "encv", "vp08", "vp09", "av01"}
+var audioEntries = []string{"mp4a", "enca", "ac-3", "ec-3"}
+
+var c01DontCare = buildDontCare()
+
+func buildDontCare() []dcRow {
+	rows := []dcRow{
+		// --- normalisations
+		{"*", -1, -8, -5, 0xff, "size_rederived", "the 32-bit size field is re-derived from the decoded content: a nested fixed-layout box whose declared size disagrees with its content is accepted by the SliceReader child loop (children are advanced by their decoded size) and written with the consistent size"},
+		// (normalisation without a row: a box whose declared size is larger than what its version/flags define is
+		// accepted and re-written with the defined size: undeclared trailing bytes are not kept. Applied only to
+		// byte-level deviations of a seed, never to seeds, library-encoded struct/tree deviations or whole files.)
+		// --- ISO/IEC 14496-12
+		{"mvhd", 0, 26, 35, 0xff, "reserved", "8.2.2: reserved(16), reserved(32)[2]"},
+		{"mvhd", 0, 36, 71, 0xff, "template", "8.2.2: matrix is written as the unity matrix"},
+		{"mvhd", 0, 72, 95, 0xff, "pre_defined", "8.2.2: pre_defined(32)[6]"},
+		{"mvhd", 1, 38, 47, 0xff, "reserved", "8.2.2 (version 1 offsets)"},
+		{"mvhd", 1, 48, 83, 0xff, "template", "8.2.2 unity matrix (version 1 offsets)"},
+		{"mvhd", 1, 84, 107, 0xff, "pre_defined", "8.2.2 (version 1 offsets)"},
+		{"tkhd", 0, 16, 19, 0xff, "reserved", "8.3.2: reserved(32) after track_ID"},
+		{"tkhd", 0, 24, 31, 0xff, "reserved", "8.3.2: reserved(32)[2]"},
+		{"tkhd", 0, 38, 39, 0xff, "reserved", "8.3.2: reserved(16) after volume"},
+		{"tkhd", 0, 40, 75, 0xff, "template", "8.3.2: matrix is written as the unity matrix"},
+		{"tkhd", 1, 24, 27, 0xff, "reserved", "8.3.2 (version 1 offsets)"},
+		{"tkhd", 1, 36, 43, 0xff, "reserved", "8.3.2 (version 1 offsets)"},
+		{"tkhd", 1, 50, 51, 0xff, "reserved", "8.3.2 (version 1 offsets)"},
+		{"tkhd", 1, 52, 87, 0xff, "template", "8.3.2 unity matrix (version 1 offsets)"},
+		{"mdhd", 0, 22, 23, 0xff, "pre_defined", "8.4.2: pre_defined(16)"},
+		{"mdhd", 1, 34, 35, 0xff, "pre_defined", "8.4.2: pre_defined(16) (version 1 offsets)"},
+		{"hdlr", -1, 12, 23, 0xff, "reserved", "8.4.3: reserved(32)[3]"},
+		{"smhd", -1, 6, 7, 0xff, "reserved", "12.2.2: reserved(16)"},
+		{"sidx", 0, 20, 21, 0xff, "reserved", "8.16.3: reserved(16)"},
+		{"sidx", 1, 28, 29, 0xff, "reserved", "8.16.3: reserved(16) (version 1 offsets)"},
+		{"tfra", -1, 8, 10, 0xff, "reserved", "8.8.10: reserved(26)"},
+		{"tfra", -1, 11, 11, 0xc0, "reserved", "8.8.10: reserved(26), last two bits"},
+		{"colr", -1, 10, 10, 0x7f, "reserved", "12.1.5 nclx: reserved(7) after full_range_flag"},
+		{"alou", 0, 4, 4, 0xc0, "reserved", "12.2.7: reserved bits before downmix_ID"},
+		{"tlou", 0, 4, 4, 0xc0, "reserved", "12.2.7"},
+		{"alou", 1, 5, 6, 0xc0, "reserved", "12.2.7 (version 1: reserved(2) before EQ_set_ID and before downmix_ID)"},
+		{"tlou", 1, 5, 6, 0xc0, "reserved", "12.2.7"},
+		// --- ISO/IEC 23001-7
+		{"tenc", 0, 4, 5, 0xff, "reserved", "8.2: reserved(8), reserved(8) in version 0"},
+		{"tenc", -1, 4, 4, 0xff, "reserved", "8.2: reserved(8)"},
+		// --- ISO/IEC 23001-18
+		{"emib", -1, 4, 7, 0xff, "reserved", "reserved(32) = 0"},
+	}
+	for _, t := range visualEntries {
+		rows = append(rows,
+			dcRow{t, -1, 0, 5, 0xff, "reserved", "8.5.2.2 SampleEntry: reserved(8)[6]"},
+			dcRow{t, -1, 8, 23, 0xff, "pre_defined", "12.1.3: pre_defined(16), reserved(16), pre_defined(32)[3]"},
+			dcRow{t, -1, 36, 39, 0xff, "reserved", "12.1.3: reserved(32)"},
+			dcRow{t, -1, 74, 75, 0xff, "template", "12.1.3: depth = 0x0018"},
+			dcRow{t, -1, 76, 77, 0xff, "pre_defined", "12.1.3: pre_defined(16) = -1"})
+	}
+	for _, t := range audioEntries {
+		rows = append(rows,
+			dcRow{t, -1, 0, 5, 0xff, "reserved", "8.5.2.2 SampleEntry: reserved(8)[6]"},
+			dcRow{t, -1, 8, 15, 0xff, "reserved", "12.2.3: reserved(32)[2]"},
+			dcRow{t, -1, 20, 23, 0xff, "pre_defined", "12.2.3: pre_defined(16), reserved(16)"},
+			dcRow{t, -1, 26, 27, 0xff, "template", "12.2.3: samplerate is {timescale of media}<<16: the low 16 bits are written as 0"})
+	}
+	for _, t := range []string{"evte", "stpp", "wvtt"} {
+		rows = append(rows, dcRow{t, -1, 0, 5, 0xff, "reserved", "8.5.2.2 SampleEntry: reserved(8)[6]"})
+	}
+	return rows
 }
 
 // dontCareMask returns the mask of don't-care bits for byte i of x, which lies at payload offset poff of the
@@ -34,5 +98,246 @@ func dontCareMask(typ string, ver, poff int, x []byte, i int) byte {
 			m |= r.Mask
 		}
 	}
+	ps := i - poff // payload start in x
+	if ps < 0 || ps > len(x) {
+		return m
+	}
+	p := x[ps:]
+	switch typ {
+	case "avc1", "avc3", "hvc1", "hev1", "encv", "vp08", "vp09", "av01":
+		// padding: compressorname is a 32-byte field: length byte, string, padding (12.1.3)
+		if len(p) > 42 && poff >= 43 && poff <= 73 && poff > 42+int(p[42]) {
+			m |= 0xff
+		}
+	case "avcC":
+		m |= avcCMask(p, poff)
+	case "hvcC":
+		switch poff {
+		case 13:
+			m |= 0xf0 // reserved(4) before min_spatial_segmentation_idc (ISO/IEC 14496-15 8.3.3.1)
+		case 15, 16:
+			m |= 0xfc // reserved(6) before parallelismType / chroma_format_idc
+		case 17, 18:
+			m |= 0xf8 // reserved(5) before bit_depth_luma/chroma_minus8
+		}
+	case "dec3":
+		m |= dec3Mask(p, poff)
+	case "sgpd":
+		// CencSampleEncryptionInformationGroupEntry starts with reserved(8) (ISO/IEC 23001-7 6)
+		if len(p) >= 16 && string(p[4:8]) == "seig" {
+			off := 12
+			if ver >= 1 {
+				off = 16
+			}
+			if ver >= 2 {
+				off = 20
+			}
+			if poff == off {
+				m |= 0xff
+			}
+		}
+	case "silb":
+		m |= silbMask(p, poff)
+	case "esds":
+		m |= esdsMask(p, poff)
+	}
 	return m
+}
+
+// avcCMask: reserved bits of AVCDecoderConfigurationRecord (ISO/IEC 14496-15 5.3.3.1.2).
+func avcCMask(p []byte, poff int) byte {
+	switch poff {
+	case 4:
+		return 0xfc // reserved '111111'b before lengthSizeMinusOne
+	case 5:
+		return 0xe0 // reserved '111'b before numOfSequenceParameterSets
+	}
+	if len(p) < 6 {
+		return 0
+	}
+	pos := 6
+	for n := int(p[5] & 0x1f); n > 0 && pos+2 <= len(p); n-- {
+		pos += 2 + int(p[pos])<<8 + int(p[pos+1])
+	}
+	if pos >= len(p) {
+		return 0
+	}
+	nPPS := int(p[pos])
+	pos++
+	for ; nPPS > 0 && pos+2 <= len(p); nPPS-- {
+		pos += 2 + int(p[pos])<<8 + int(p[pos+1])
+	}
+	switch poff - pos {
+	case 0:
+		return 0xfc // reserved '111111'b before chroma_format
+	case 1, 2:
+		return 0xf8 // reserved '11111'b before bit_depth_luma/chroma_minus8
+	}
+	return 0
+}
+
+// dec3Mask: reserved bits of EC3SpecificBox (ETSI TS 102 366 F.6).
+func dec3Mask(p []byte, poff int) byte {
+	if len(p) < 2 {
+		return 0
+	}
+	n := int(p[1]&7) + 1
+	bit := 16
+	for s := 0; s < n; s++ {
+		// fscod(2) bsid(5) reserved(1) asvc(1) bsmod(3) acmod(3) lfeon(1) reserved(3) num_dep_sub(4) then chan_loc(9) | reserved(1)
+		res := []int{bit + 7, bit + 16, bit + 17, bit + 18}
+		nd := 0
+		if (bit+19)/8 < len(p) {
+			for k := 0; k < 4; k++ {
+				b := bit + 19 + k
+				if b/8 < len(p) {
+					nd = nd<<1 | int(p[b/8]>>uint(7-b%8))&1
+				}
+			}
+		}
+		if nd == 0 {
+			res = append(res, bit+23)
+			bit += 24
+		} else {
+			bit += 32
+		}
+		var m byte
+		for _, r := range res {
+			if r/8 == poff {
+				m |= 1 << uint(7-r%8)
+			}
+		}
+		if m != 0 {
+			return m
+		}
+	}
+	return 0
+}
+
+// silbMask: the seven bits next to atleast_one_flag / other_schemes_flag (ISO/IEC 23001-18).
+func silbMask(p []byte, poff int) byte {
+	if len(p) < 8 {
+		return 0
+	}
+	n := int(p[4])<<24 | int(p[5])<<16 | int(p[6])<<8 | int(p[7])
+	pos := 8
+	for k := 0; k < n && pos < len(p); k++ {
+		for z := 0; z < 2; z++ {
+			for pos < len(p) && p[pos] != 0 {
+				pos++
+			}
+			pos++
+		}
+		if pos == poff {
+			return silbFlagMask(p, poff)
+		}
+		pos++
+	}
+	if pos == poff {
+		return silbFlagMask(p, poff)
+	}
+	return 0
+}
+
+// silbFlagMask: the flag is read as "byte == 1": with any of the seven reserved bits set the whole byte is reserved junk.
+func silbFlagMask(p []byte, poff int) byte {
+	if poff < len(p) && p[poff]&0xfe != 0 {
+		return 0xff
+	}
+	return 0xfe
+}
+
+// esdsMask: reserved bit after upStream in DecoderConfigDescriptor (ISO/IEC 14496-1 7.2.6.6), and the
+// sizeOfInstance bytes of the ES, DecoderConfig, DecoderSpecificInfo and SLConfig descriptors, which are
+// re-derived from the decoded content (size normalisation, like the box size field).
+func esdsMask(p []byte, poff int) byte {
+	pos := 4
+	var m byte
+	readLen := func() (int, bool) {
+		l := 0
+		for k := 0; k < 4; k++ {
+			if pos >= len(p) {
+				return 0, false
+			}
+			if pos == poff {
+				m = 0xff
+			}
+			b := p[pos]
+			pos++
+			l = l<<7 | int(b&0x7f)
+			if b&0x80 == 0 {
+				return l, true
+			}
+		}
+		return l, true
+	}
+	if pos >= len(p) || p[pos] != 3 {
+		return 0
+	}
+	pos++
+	if _, ok := readLen(); !ok {
+		return m
+	}
+	if pos+3 > len(p) {
+		return m
+	}
+	flags := p[pos+2]
+	pos += 3
+	if flags&0x80 != 0 {
+		pos += 2
+	}
+	if flags&0x40 != 0 && pos < len(p) {
+		pos += 1 + int(p[pos])
+	}
+	if flags&0x20 != 0 {
+		pos += 2
+	}
+	if pos >= len(p) || p[pos] != 4 {
+		return m
+	}
+	pos++
+	if _, ok := readLen(); !ok {
+		return m
+	}
+	if poff == pos+1 {
+		return m | 0x01 // streamType(6) upStream(1) reserved(1)
+	}
+	// DecoderSpecificInfo (tag 5) and SLConfig (tag 6) length bytes
+	pos += 13
+	for k := 0; k < 2 && pos < len(p); k++ {
+		if p[pos] != 5 && p[pos] != 6 {
+			break
+		}
+		pos++
+		l, ok := readLen()
+		if !ok {
+			break
+		}
+		pos += l
+	}
+	return m
+}
+
+// trakRegroup reports whether x holds a moov box (as the box itself or at file top level) in which a trak
+// follows a child that is neither mvhd nor trak after an earlier trak: MoovBox.AddChild deliberately moves
+// such a late trak next to the previous one (documented in its source), so child order is normalised.
+func trakRegroup(x []byte) bool {
+	top, _ := boxwalk.WalkAll(x)
+	for _, b := range top {
+		if b.Type != "moov" {
+			continue
+		}
+		seenTrak, gap := false, false
+		for _, c := range b.Children {
+			switch {
+			case c.Type == "trak" && gap:
+				return true
+			case c.Type == "trak":
+				seenTrak = true
+			case seenTrak:
+				gap = true
+			}
+		}
+	}
+	return false
 }
